@@ -16,9 +16,12 @@ harness owns the table code ↔ string; `pixelLabel` / `worldLabel` mirror `pixe
 -/
 namespace GlueVerif.DataStruct
 
-abbrev Cid := Nat
-abbrev Label := Nat
-abbrev Shape := List Nat
+/-- Identifier of a `ComponentID` object. -/
+scoped notation "Cid" => Nat
+/-- Code of a label. -/
+scoped notation "Label" => Nat
+/-- Array shape. -/
+scoped notation "Shape" => List Nat
 
 /-- Which class the `Component` stored under an id has. -/
 inductive Kind where
@@ -625,6 +628,34 @@ structure Step where
 def specTrace (o0 : Obs) : List Step → Bool
   | [] => specInv o0
   | st :: rest => specInv o0 && specStep o0 st.op st.post st.msgs st.err && specTrace st.post rest
+
+/-! ## the state invariant (the `Prop` the inductive proofs carry; it implies `specInv` of every
+observation of the state) -/
+
+/-- One coordinate family (`mk = Kind.pixel` or `Kind.world`): one listed id per dimension, the
+`i`-th listed id is a stored component of kind `mk i`, and every stored component of that family is
+the listed one of its axis. -/
+def FamOk (comps : List Comp) (ids : List Cid) (mk : Nat → Kind) (ndim : Nat) : Prop :=
+  ids.length = ndim ∧
+  (∀ i, (h : i < ids.length) → ∃ c ∈ comps, c.cid = ids[i] ∧ c.kind = mk i) ∧
+  (∀ c ∈ comps, ∀ a, c.kind = mk a → ids[a]? = some c.cid)
+
+structure Inv (s : State) : Prop where
+  /-- component identifiers are unique -/
+  nodup : (cids s.comps).Nodup
+  /-- every stored array has the dataset's shape -/
+  shapes : ∀ c ∈ s.comps, c.kind = .main → c.shape = s.shape
+  /-- exactly one pixel attribute per dimension -/
+  pixel : FamOk s.comps s.pix .pixel s.shape.length
+  /-- one world attribute per dimension iff coordinates are set -/
+  world : if s.coords.isSome then FamOk s.comps s.world .world s.shape.length
+          else s.world = [] ∧ ∀ c ∈ s.comps, ∀ a, c.kind ≠ .world a
+  /-- a dataset without a shape has no components -/
+  empty : s.shape = [] → s.comps = []
+  /-- two pixel↔world links per dimension iff coordinates are set -/
+  links : s.nlinks = if s.coords.isSome then 2 * s.shape.length else 0
+  /-- identities in use were created before `next` -/
+  fresh : (∀ c ∈ cids s.comps, c < s.next) ∧ (∀ c ∈ s.linked, c < s.next)
 
 /-! ## the part of the API the theorems cover -/
 
